@@ -295,6 +295,7 @@ func (cr *clRun) run(dir string) {
 	rpc.SetRPCTimeout()
 	cr.m = newVolModel(size)
 	c := newCluster(w, cr.res, dir, rf, size, nreps)
+	c.punchLag = s.Cfg["punchlag"]
 	cr.c = c
 	c.onFrame = cr.onFrame
 	w.OnAcquire = cr.onAcquire
@@ -1687,6 +1688,9 @@ func (clustersim) Generate(rng *Rand, prop, tier string) *Script {
 	s.Cfg["rf"] = int64(rf)
 	s.Cfg["blocks"] = nb
 	s.Cfg["perm"] = int64(rng.Intn(2))
+	if rng.Bool(30) {
+		s.Cfg["punchlag"] = int64([]int{50, 500, 5000, 70000}[rng.Intn(4)]) // lagging hole puncher (ms per hole, upper bound)
+	}
 	if rng.Bool(30) {
 		s.Cfg["rpcto"] = int64(rng.Range(3, 20))
 	}
